@@ -205,7 +205,8 @@ def _child(case, ex, workdir, wfd):
         outcome["prelude"] = []
         for pre in ex.get("prelude") or []:
             try:
-                Program(Args.parse(build_argv(case, pre))).run()
+                exts = [taps.Bomb(pre["abort_at"])] if pre.get("abort_at") is not None else None
+                Program(Args.parse(build_argv(case, pre)), extensions=exts).run()
                 outcome["prelude"].append("ok")
             except BaseException as e:  # noqa: BLE001
                 outcome["prelude"].append(type(e).__name__)
